@@ -160,7 +160,7 @@ func (qe *queryEvent) startQueryListener() {
 
 // passQueryRequest passes a query request on to a worker.
 func (qe *queryEvent) passQueryRequest(m *nats.Msg) {
-	simYield("queryListener.recv", qe.r.rname)
+	simYield("queryListener.recv", qe.r.rname+" "+qe.sub.Subject)
 	qe.r.s.runWith(qe.r.Group(), func() {
 		qe.handleQueryRequest(m)
 	})
